@@ -725,7 +725,9 @@ func corrupt(in *instance, cs caseT, rnd *sim.Rng, donors map[string][]byte) ([]
 	switch {
 	case len(parts) == 1:
 		if _, ok := top.get(parts[0]); !ok {
-			return nil, fmt.Errorf("the real encoding of %s has no field %s", in.Ty, parts[0])
+			// the encoder left the (empty) field out of this instance; that the field exists at all is checked against
+			// the union of the instances
+			return nil, na("this encoding of %s leaves out the field %s", in.Ty, parts[0])
 		}
 		sl = mapSlot(top, parts[0])
 		if donorTop != nil {
@@ -1808,22 +1810,29 @@ func main() {
 		specFields[c.Ty][c.Field] = true
 	}
 	for ty, fs := range specFields {
-		in := b.insts[ty][0]
-		_, top, err := open(ty, in.Enc)
-		if err != nil {
-			res.Harness = append(res.Harness, fmt.Sprintf("cannot open the encoding of %s: %v", ty, err))
-			continue
-		}
+		// the fields of the real encoding: the union over the instances (an encoder may leave out empty fields)
 		real := map[string]bool{}
-		for _, k := range top.keys() {
-			real[k] = true
-			if _, l, _, err := tableOf(top, k); err == nil && l != nil && len(l) > 0 {
-				if e, ok := l[0].(*omap); ok {
-					for _, ek := range e.keys() {
-						real[k+"/*/"+ek] = true
+		opened := false
+		for _, in := range b.insts[ty] {
+			_, top, err := open(ty, in.Enc)
+			if err != nil {
+				res.Harness = append(res.Harness, fmt.Sprintf("cannot open the encoding of %s: %v", ty, err))
+				continue
+			}
+			opened = true
+			for _, k := range top.keys() {
+				real[k] = true
+				if _, l, _, err := tableOf(top, k); err == nil && l != nil && len(l) > 0 {
+					if e, ok := l[0].(*omap); ok {
+						for _, ek := range e.keys() {
+							real[k+"/*/"+ek] = true
+						}
 					}
 				}
 			}
+		}
+		if !opened {
+			continue
 		}
 		spec := map[string]bool{}
 		for f := range fs {
@@ -1930,35 +1939,36 @@ func main() {
 		if ty != "protocol.Message" {
 			continue
 		}
-		for i, in := range l {
-			prev := l[(i+1)%len(l)]
-			if prev == in || bytes.Equal(prev.Enc, in.Enc) {
-				continue
-			}
-			cs0 := caseT{Ty: ty, Field: "*", C: "used-receiver", Expect: "roundtrip"}
-			func() {
-				defer func() {
-					if p := recover(); p != nil {
-						res.violate(in, cs0, "roundtrip", "panic", fmt.Sprintf("restoring over a used receiver panics: %v", p), in.Enc)
+		for _, in := range l {
+			for _, prev := range l {
+				if prev == in || bytes.Equal(prev.Enc, in.Enc) {
+					continue
+				}
+				cs0 := caseT{Ty: ty, Field: "*", C: "used-receiver", Expect: "roundtrip"}
+				func() {
+					defer func() {
+						if p := recover(); p != nil {
+							res.violate(in, cs0, "roundtrip", "panic", fmt.Sprintf("restoring over a used receiver panics: %v", p), in.Enc)
+						}
+					}()
+					recv, err := decodeDocumented(ty, prev.Enc)
+					if err != nil {
+						return
+					}
+					res.Roundtrips++
+					if ty == "protocol.Message" {
+						err = recv.(*protocol.Message).UnmarshalBinary(in.Enc)
+					} else {
+						err = cbor.Unmarshal(in.Enc, recv)
+					}
+					if err != nil {
+						return // refusing is fine
+					}
+					if a, bb := valueCanon(in.Obj), valueCanon(recv); a != bb {
+						res.violate(in, cs0, "roundtrip", "roundtrip-differs", "an object restored over a receiver that held another "+ty+" differs from the stored one: "+firstDiff(a, bb), in.Enc)
 					}
 				}()
-				recv, err := decodeDocumented(ty, prev.Enc)
-				if err != nil {
-					return
-				}
-				res.Roundtrips++
-				if ty == "protocol.Message" {
-					err = recv.(*protocol.Message).UnmarshalBinary(in.Enc)
-				} else {
-					err = cbor.Unmarshal(in.Enc, recv)
-				}
-				if err != nil {
-					return // refusing is fine
-				}
-				if a, bb := valueCanon(in.Obj), valueCanon(recv); a != bb {
-					res.violate(in, cs0, "roundtrip", "roundtrip-differs", "an object restored over a receiver that held another "+ty+" differs from the stored one: "+firstDiff(a, bb), in.Enc)
-				}
-			}()
+			}
 		}
 	}
 
